@@ -224,6 +224,10 @@ mutual
           | [x] => pure (.vec (List.replicate n x), st)     -- splat
           | xs => if xs.length = n then pure (.vec xs, st) else throw (.stuck "vector constructor arity")
         | _ => pure (.comp vs, st)
+      | "aidx" => do
+        let (vs, st) ← evalArgs env (fuel - 1) scope args st
+        let j ← opt opn.toNat? "array index"
+        pure (← opt vs[j]? "constant array index out of range", st)
       | "idx" => do
         match args with
         | [b, i] => do
